@@ -37,7 +37,7 @@ func RulePeerClassification(p *core.Program, r *core.Report, rule string) {
 			return false
 		}
 		fn := core.Callee(info, c)
-		return fn != nil && fn.Name() == "updateNetworkPolicyExposureClusterWideConns"
+		return fn != nil && core.RefName(fn) == "updateNetworkPolicyExposureClusterWideConns"
 	}
 	w.Transfer = func(st int, n ast.Node, f facts.Formula) int {
 		if _, ok := n.(*ast.RangeStmt); ok {
@@ -106,7 +106,7 @@ func RulePeerClassification(p *core.Program, r *core.Report, rule string) {
 				return 0
 			}
 			if c, ok := n.(*ast.CallExpr); ok {
-				if fn := core.Callee(ginfo, c); fn != nil && fn.Name() == "addRepresentativePod" {
+				if fn := core.Callee(ginfo, c); fn != nil && core.RefName(fn) == "addRepresentativePod" {
 					called = true
 					return 1
 				}
@@ -140,7 +140,7 @@ func RulePeerClassification(p *core.Program, r *core.Report, rule string) {
 			var call *ast.CallExpr
 			ast.Inspect(s.Decl.Body, func(n ast.Node) bool {
 				if c, ok := n.(*ast.CallExpr); ok {
-					if fn := core.Callee(sinfo, c); fn != nil && fn.Name() == d.scan {
+					if fn := core.Callee(sinfo, c); fn != nil && core.RefName(fn) == d.scan {
 						call = c
 					}
 				}
@@ -200,7 +200,7 @@ func RepresentativeKey(p *core.Program, r *core.Report, rule string) {
 		if !ok || len(c.Args) != 1 {
 			return true
 		}
-		if fn := core.Callee(info, c); fn != nil && fn.Name() == "UniqueKeyFromLabelsSelector" {
+		if fn := core.Callee(info, c); fn != nil && core.RefName(fn) == "UniqueKeyFromLabelsSelector" {
 			if id, ok := as.Lhs[0].(*ast.Ident); ok {
 				keyOf[info.ObjectOf(id)] = core.ExprStr(c.Args[0])
 			}
@@ -278,7 +278,7 @@ func RepresentativeDeletion(p *core.Program, r *core.Report, rule string) {
 			if !ok || !core.IsBuiltinCall(info, c, "delete") || core.FieldOf(info, c.Args[0]) != rep {
 				return true
 			}
-			r.Check(fd.Obj.Name() == "removeRepresentativePeersMatchingLabels", rule, fd.Key()+": deletes representative peers", p.Pos(c.Pos()), "the documented refinement", "representative peers are deleted outside removeRepresentativePeersMatchingLabels: potential connections go unreported")
+			r.Check(core.RefName(fd.Obj) == "removeRepresentativePeersMatchingLabels", rule, fd.Key()+": deletes representative peers", p.Pos(c.Pos()), "the documented refinement", "representative peers are deleted outside removeRepresentativePeersMatchingLabels: potential connections go unreported")
 			return true
 		})
 	}
@@ -341,7 +341,7 @@ func RepresentativeDeletion(p *core.Program, r *core.Report, rule string) {
 					decide(x, w, f, info)
 				}
 			}
-			if fn := core.Callee(info, cl); fn != nil && fn.Pkg() != nil && fn.Pkg().Path() == "maps" && fn.Name() == "DeleteFunc" && len(cl.Args) == 2 && core.FieldOf(info, cl.Args[0]) == rep {
+			if fn := core.Callee(info, cl); fn != nil && fn.Pkg() != nil && fn.Pkg().Path() == "maps" && core.RefName(fn) == "DeleteFunc" && len(cl.Args) == 2 && core.FieldOf(info, cl.Args[0]) == rep {
 				lit, isLit := ast.Unparen(cl.Args[1]).(*ast.FuncLit)
 				if !isLit {
 					r.Bad(rule, c, p.Pos(cl.Pos()), "the deletion predicate is not a function literal: its positive answers cannot be examined here")
@@ -429,7 +429,7 @@ func repSelectorAtomizer(info *types.Info, scope ast.Node) func(w *facts.Walker,
 			if k == "" {
 				return nil
 			}
-			switch fn.Name() {
+			switch core.RefName(fn) {
 			case "Empty":
 				return facts.Atom("emptysel:" + k)
 			case "Matches":
@@ -557,7 +557,7 @@ func ContainmentSeesNamedPorts(p *core.Program, r *core.Report, rule string) {
 	usesContained := false
 	ast.Inspect(fd.Decl.Body, func(n ast.Node) bool {
 		if c, ok := n.(*ast.CallExpr); ok {
-			if fn := core.Callee(info, c); fn != nil && fn.Name() == "ContainedIn" && core.RecvTypeName(fn.Type().(*types.Signature)) == "ConnectionSet" {
+			if fn := core.Callee(info, c); fn != nil && core.RefName(fn) == "ContainedIn" && core.RecvTypeName(fn.Type().(*types.Signature)) == "ConnectionSet" {
 				usesContained = true
 			}
 		}
